@@ -78,6 +78,20 @@ func c20Gen(seed int64, idx int) *yang.ModSet {
 		yang.S("container", "c20-mixed", yang.S("leaf", "cfg", yang.S("type", "string")), yang.S("leaf", "st", yang.S("type", "string"), yang.S("config", "false")),
 			yang.S("choice", "mixch", yang.S("leaf", "m1", yang.S("type", "string"), yang.S("config", "false")), yang.S("leaf", "m2", yang.S("type", "string")))),
 	)
+	if idx%10 == 9 {
+		// a second module augments a list with a configuration leaf named like a state leaf the list has already.
+		// Whether such a set compiles is not this property's subject (it is refused: the names clash); if it
+		// compiles, what a filter leaves must still be what pruning leaves.
+		pa := m.Find("prefix").Arg
+		top.Add(yang.S("list", "c20-if", yang.S("key", "name"), yang.S("leaf", "name", yang.S("type", "string")),
+			yang.S("leaf", "mtu", yang.S("type", "uint16"), yang.S("config", "false")),
+			yang.S("container", "stats", yang.S("config", "false"), yang.S("leaf", "in", yang.S("type", "uint32")))))
+		ms.Mods = append(ms.Mods, yang.S("module", "c20-vendor", yang.S("namespace", "urn:verif:c20-vendor"), yang.S("prefix", "cv"),
+			yang.S("import", m.Arg, yang.S("prefix", pa)),
+			yang.S("augment", "/"+pa+":"+top.Arg+"/"+pa+":c20-if",
+				yang.S("leaf", "mtu", yang.S("type", "uint16")),
+				yang.S("container", "stats", yang.S("leaf", "reset-interval", yang.S("type", "uint32"))))))
+	}
 	if idx%2 == 1 {
 		// operational command nodes (the third kind of node the filters tell apart)
 		ms.Mods = append(ms.Mods, yang.S("module", "c20-opd", yang.S("namespace", "urn:verif:c20-opd"), yang.S("prefix", "co"),
@@ -147,6 +161,10 @@ func (p *c20) Run(tier string, seed int64, idx int) core.CaseResult {
 		return res
 	}
 	if !base.Accepted() {
+		if ms.Mods[len(ms.Mods)-1].Arg == "c20-vendor" || (len(ms.Mods) > 1 && ms.Mods[len(ms.Mods)-2].Arg == "c20-vendor") {
+			res.Ev("sets_with_a_cross_module_name_clash_refused", 1)
+			return res
+		}
 		res.Fail("C20/valid-set-rejected", input, base.Err)
 		return res
 	}
